@@ -38,6 +38,10 @@ def np_array(kind, vals):
         return np.array(vals, dtype=np.int64)
     if kind == "i32":
         return np.array(vals, dtype=np.int32)
+    if kind == "i8":
+        return np.array(vals, dtype=np.int8)
+    if kind == "u8":
+        return np.array(vals, dtype=np.uint8)
     if kind == "b":
         return np.array(vals, dtype=bool)
     if kind == "s":
@@ -93,7 +97,7 @@ def plan_isna(kind, v):
         return v != v
     if kind in ("s", "u"):
         return v == ""
-    if kind in ("i", "i32", "b", "y"):
+    if kind in ("i", "i32", "i8", "u8", "b", "y"):
         return False
     return v is None
 
@@ -117,7 +121,7 @@ def pcell(kind, v):
         return None
     if kind in ("f", "f32"):
         return float(v)
-    if kind in ("i", "i32", "oi"):
+    if kind in ("i", "i32", "i8", "u8", "oi"):
         return int(v)
     if kind in ("b", "ob"):
         return bool(v)
@@ -222,7 +226,7 @@ def dtype_tag(a):
 
 
 def kind_dtype_tag(kind):
-    return {"f": "float64", "f32": "float32", "i": "int64", "i32": "int32", "b": "bool", "s": "string",
+    return {"f": "float64", "f32": "float32", "i": "int64", "i32": "int32", "i8": "int8", "u8": "uint8", "b": "bool", "s": "string",
             "u": "U", "d": "datetime64[D]", "t": "datetime64[us]", "tm": "datetime64[ms]",
             "ts": "datetime64[s]", "td": "timedelta64[s]", "o": "object", "oi": "object",
             "ob": "object", "y": "S"}[kind]
@@ -252,3 +256,46 @@ def snap_any(x):
     if isinstance(x, di.ListOfDicts):
         return ("lod", repr([dict(i) for i in x]))
     return ("py", repr(x))
+
+
+# -- whole-row checks shared by C02/C03/C04/C05/C09 -------------------------------------------
+
+def table(data):
+    """name -> (dtype tag, canonical cells) of a real frame, taken independently of dataiter."""
+    return {k: (dtype_tag(v), cells(v)) for k, v in dict.items(data)}
+
+
+def check_whole_rows(what, out, src, names=None, rid="_rid_", exact_dtype=True):
+    """
+    Every output row equals the source row named by its row id, in every column, bit-exactly;
+    column names/order are `names` (default: the source's). Returns the list of row ids.
+    `src` is a table() snapshot taken before the call.
+    """
+    from .runner import Violation
+    names = list(src) if names is None else list(names)
+    got_names = list(dict.keys(out))
+    if got_names != names:
+        raise Violation(f"{what}: column names/order changed", got=got_names, want=names)
+    lens = {len(np.asarray(v)) for v in dict.values(out)}
+    if len(lens) > 1:
+        raise Violation(f"{what}: result is not rectangular", lens=sorted(lens))
+    if rid not in got_names:
+        raise Violation(f"{what}: row id column lost")
+    rids = [int(x) for x in np.asarray(out[rid])]
+    nsrc = len(src[rid][1])
+    for r in rids:
+        if not 0 <= r < nsrc:
+            raise Violation(f"{what}: output row with unknown row id", rid=r)
+    for name in names:
+        tag, scells = src[name]
+        col = out[name]
+        if np.asarray(col).ndim != 1:
+            raise Violation(f"{what}: column {name!r} is not one-dimensional")
+        if exact_dtype and dtype_tag(col) != tag:
+            raise Violation(f"{what}: dtype of column {name!r} changed", got=dtype_tag(col), want=tag)
+        ocells = cells(col)
+        for j, r in enumerate(rids):
+            if not same_cell(ocells[j], scells[r]):
+                raise Violation(f"{what}: cell differs from its source row", column=name, out_row=j,
+                                src_row=r, got=ocells[j], want=scells[r])
+    return rids
